@@ -469,8 +469,15 @@ def run_property(pid, tier='quick', seed=0, jobs=None, only=None, verbose=False,
             'bounds as listed under coverage.bounds; everything beyond them is outside the claim',
         ],
     }
-    with open(os.path.join(ROOT, 'evidence', pid + '.json'), 'w') as f:
-        json.dump(evidence, f, indent=1, default=str)
+    # runs against another tree (VERIF_REPO=<scratch worktree>, used for seeded changes) must not
+    # overwrite the evidence of /repo itself
+    alt = os.environ.get('VERIF_REPO') not in (None, '', '/repo')
+    evdir = os.path.join(ROOT, '.work', 'evidence') if alt else os.path.join(ROOT, 'evidence')
+    os.makedirs(evdir, exist_ok=True)
+    evidence['coverage']['tree_under_test'] = os.environ.get('VERIF_REPO') or '/repo'
+    for name in (pid + '.json', '%s.%s.json' % (pid, tier)):
+        with open(os.path.join(evdir, name), 'w') as f:
+            json.dump(evidence, f, indent=1, default=str)
     say('SUMMARY property=%s tier=%s cells=%d discharged=%d inconclusive=%d known=%d violations=%d '
         'paths=%d queries=%d solver_s=%.1f wall=%.1fs' % (
             pid, tier, summary['obligations'], summary['discharged'], summary['inconclusive'],
